@@ -465,7 +465,8 @@ def observations(o, traces):
         for e in evs:
             cnt[e] = cnt.get(e, 0) + 1
         qs = [e for e in t if e.get("ev") == "Q"]
-        if "Cancel" in evs and "Join" not in evs and qs and qs[-1]["g"] > 0 and not qs[-1]["fb"]:
+        busy = evs.count("WorkStart") - evs.count("WorkEnd")          # work functions that were not released: legitimately alive
+        if "Cancel" in evs and "Join" not in evs and qs and busy == 0 and qs[-1]["g"] > 0 and not qs[-1]["fb"]:
             leak += 1
     o.extra["forkjoin_events"] = cnt
     o.extra["forkjoin_panics_observed"] = sum(1 for t in traces for e in t if e.get("panic") is True)
